@@ -305,6 +305,11 @@ func (t *Thread) processIncomingInterest(packet *defn.Pkt) {
 				core.LogWarn(t, "Interest ", packet.Name, " cannot be sent to non-local NextHopFaceId=", *packet.NextHopFaceID, " since violates /localhost scope - DROP")
 				return
 			}
+			// Never send back out of the point-to-point face the Interest arrived on
+			if *packet.NextHopFaceID == incomingFace.FaceID() && incomingFace.LinkType() != defn.AdHoc {
+				core.LogDebug(t, "NextHopFaceId of Interest ", packet.Name, " is the incoming face - DROP")
+				return
+			}
 			core.LogTrace(t, "NextHopFaceId is set for Interest ", packet.Name, " - dispatching directly to face")
 			dispatch.GetFace(*packet.NextHopFaceID).SendPacket(dispatch.OutPkt{
 				Pkt:      packet,
